@@ -134,13 +134,13 @@ fn main() {
             }
             println!("RESULT enum:zinc-encode-panics {n} scalar values encoded to Zinc, Hayson and display text without a panic");
         }
-        // ---- C17 enumerator: list handles against Vec semantics, all ops x indices 0..=3 on lists of length 0..=2; exit 3 on mismatch
+        // ---- C17 enumerator: list handles against Vec semantics, all ops x indices 0..=5 on lists of length 0..=4; exit 3 on mismatch
         "enum:capi-list" => unsafe {
             use libhaystack::c_api::list::*;
             use libhaystack::c_api::value::*;
             use libhaystack::c_api::ResultType;
-            let items = [Value::make_int(1), Value::make_str("s"), Value::make_marker()];
-            for len in 0..=2usize { for idx in 0..=3usize { for op in 0..3 {
+            let items = [Value::make_int(1), Value::make_str("s"), Value::make_marker(), Value::make_int(4)];
+            for len in 0..=4usize { for idx in 0..=5usize { for op in 0..3 {
                 let mut model: Vec<Value> = items[..len].to_vec();
                 let h = Box::into_raw(haystack_value_make_list());
                 for it in &model { let e = Box::into_raw(Box::new(it.clone())); haystack_value_push_list_entry(h, e); drop(Box::from_raw(e)); }
